@@ -17,7 +17,7 @@ package c15
 
 import (
 	"fmt"
-	"strings"
+	"runtime/debug"
 	"sync"
 
 	"verif/harness/core"
@@ -138,28 +138,6 @@ try {
 log('s:6');`},
 }
 
-// Known finding C15-generator-close-unwind (see known-findings.d/C15.json, inbox/C15-generator-return-unwind.md): while it
-// is listed, random programs never close (return()/break/destructure/throw through) a generator that has a finally block —
-// the exclusion neighbourhood of that finding; pinned witnesses 3 and 4 keep exercising it.
-const genCloseFinding = "C15-generator-close-unwind"
-
-var (
-	findOnce      sync.Once
-	avoidGenClose bool
-)
-
-func findingListed() bool {
-	findOnce.Do(func() {
-		f := core.LoadFindings()
-		for _, k := range f.Findings {
-			if k.Property == "C15" && strings.HasPrefix(k.ID, genCloseFinding) {
-				avoidGenClose = true
-			}
-		}
-	})
-	return avoidGenClose
-}
-
 var (
 	tailOnce sync.Once
 	tail     *racelog.Tail
@@ -186,7 +164,7 @@ func Check() *core.Check {
 			if tier == "thorough" {
 				return 48000
 			}
-			return 1400
+			return 900
 		},
 		MinConclusive: func(tier string) int { return 150 },
 		NumPinned:     len(pinned),
@@ -198,7 +176,10 @@ func Check() *core.Check {
 }
 
 func run(c *core.Ctx) core.Result {
-	tailOnce.Do(func() { tail = racelog.NewTail() })
+	tailOnce.Do(func() {
+		tail = racelog.NewTail()
+		debug.SetGCPercent(400) // thousands of short-lived Runtimes per second: trade memory for fewer collections
+	})
 	var res core.Result
 	switch {
 	case c.Index < 0:
@@ -208,7 +189,7 @@ func run(c *core.Ctx) core.Result {
 	case c.Index%4 == 3:
 		res = runConc(c)
 	default:
-		p := genProgram(c.Rng, findingListed())
+		p := genProgram(c.Rng)
 		res = runDet(c, p, false)
 	}
 	if tail.Enabled() {
